@@ -413,6 +413,12 @@ def judge_case(pid, run, case, res, known):
 
 
 def same_dim_spelling(a, b):
+    """a: the name found in the map, b: the source spelling. The SUT names a rewritten dimension by the
+    serialisation of the source token, so exotic spellings (`+.5rpx`, `1e2rpx`, more than 6 digits) come back
+    normalised; a plain decimal spelling must come back character for character."""
+    mb = re.match(r"^(-?(?:0|[1-9][0-9]*)(?:\.[0-9]*[1-9])?)([a-zA-Z%]*)$", b)
+    if mb and len(re.sub(r"[-.]", "", mb.group(1)).lstrip("0")) <= 6:
+        return a == b
     m1 = re.match(r"^([-+0-9.eE]+)([a-zA-Z%]*)$", a)
     m2 = re.match(r"^([-+0-9.eE]+)([a-zA-Z%]*)$", b)
     try:
